@@ -63,7 +63,7 @@ func hostileHost(r *ref.R) string {
 	}
 }
 
-var patternAtoms = []string{"{", "}", "{}", "{:}", "{-}", "{-:}", "{id}", "{id:}", "{-id}", "{id:\\d+}", "{id:[}", "{id:(}", "{id:digit}", ":", "-", "/", "a", "\\", "{{", "}}", "}{", "{a}{b}", "{a:{b}}", "é", "\xff", "\x00", "*", "{id:a|b}", "{n:^x$}"}
+var patternAtoms = []string{"{", "}", "{}", "{:}", "{-}", "{-:}", "{id}", "{id:}", "{-id}", "{id:\\d+}", "{id:[}", "{id:(}", "{id:digit}", ":", "-", "/", "a", "\\", "{{", "}}", "}{", "{a}{b}", "{a:{b}}", "é", "\xff", "\x00", "*", "{id:a|b}", "{n:^x$}", "{id:a)|(b}", "{x:)(}", "{x:a)(b}", "{x:|}", "{x:()}", "{x:(?i)a}", "{-x:a)|(b}", "{x:.*}", "{x:\\d+}"}
 
 func hostilePattern(r *ref.R) string {
 	switch r.Intn(8) {
@@ -269,9 +269,13 @@ func runC05(c *Ctx) {
 		if ok {
 			c.Class("pattern_accepted")
 			// the registered pattern must be servable without a crash
-			o := mon.Do(fr, mon.Req{Method: "GET", Path: p})
-			if o.Panicked || o.NilHandler {
-				c.Violate(fmt.Sprintf("request after Handle of a hostile pattern: panic=%v nil=%v", o.Panic, o.NilHandler), det())
+			for _, path := range []string{p, "/b", "b", "/a", "ab", "/", "/7", "7", string(r.Bytes(r.Range(1, 6))), p + "x", strings.Trim(p, "{}")} {
+				o := mon.Do(fr, mon.Req{Method: "GET", Path: path})
+				c.Eval()
+				if o.Panicked || o.NilHandler {
+					c.Violate(fmt.Sprintf("request %q after Handle of a hostile pattern: panic=%v nil=%v", path, o.Panic, o.NilHandler), det())
+					break
+				}
 			}
 		} else {
 			c.Class("pattern_rejected")
